@@ -107,7 +107,12 @@ class CallMixin:
             return self.call_function(getter, None, [obj], {}, node, anchor=self.anchor(node))
         fields = self.index.instance_fields(ci)
         if name in fields or (mem is None and attr in self._extern_fields(ci)):
-            return self.st.get_field(Val.r(obj), name)
+            v = self.st.get_field(Val.r(obj), name)
+            srt = self.index.field_const_sort(ci, name)
+            if srt is not None:
+                # inferred field invariant: only constants of one type are ever assigned to this field
+                self.ctx.assume({"bool": Val.is_VBool(v), "int": Val.is_VInt(v), "str": Val.is_VStr(v)}[srt])
+            return v
         if mem is not None:
             if mem[0] == "method":
                 fi = mem[1]
